@@ -66,6 +66,52 @@ pub proof fn lemma_keep_elems<A>(xs: Seq<A>, bs: Seq<bool>, j: int)
     }
 }
 
+// filtering first and mapping the survivors == mapping everything with the dropped ones sent to None
+pub proof fn lemma_somes_keep<A, B>(xs: Seq<A>, bs: Seq<bool>, ys: Seq<Option<B>>, zs: Seq<Option<B>>, f: spec_fn(A) -> Option<B>)
+    requires bs.len() == xs.len(), ys.len() == keep(xs, bs).len(), zs.len() == xs.len(),
+        forall|j: int| 0 <= j < ys.len() ==> #[trigger] ys[j] == f(keep(xs, bs)[j]),
+        forall|i: int| 0 <= i < xs.len() ==> #[trigger] zs[i] == (if bs[i] { f(xs[i]) } else { None }),
+    ensures somes(ys) == somes(zs),
+    decreases xs.len(),
+{
+    if xs.len() > 0 {
+        let kx = keep(xs.drop_last(), bs.drop_last());
+        if bs.last() {
+            assert(keep(xs, bs) == kx.push(xs.last()));
+            assert(ys.drop_last().len() == kx.len());
+            assert forall|j: int| 0 <= j < ys.drop_last().len() implies #[trigger] ys.drop_last()[j] == f(kx[j]) by { assert(ys[j] == f(keep(xs, bs)[j])); }
+            lemma_somes_keep(xs.drop_last(), bs.drop_last(), ys.drop_last(), zs.drop_last(), f);
+            assert(ys.last() == f(xs.last()));
+            assert(zs.last() == f(xs.last()));
+        } else {
+            assert(keep(xs, bs) == kx);
+            lemma_somes_keep(xs.drop_last(), bs.drop_last(), ys, zs.drop_last(), f);
+            assert(zs.last() is None);
+        }
+    } else {
+        assert(ys.len() == 0);
+    }
+}
+
+// mapping the survivors == surviving the mapped options
+pub open spec fn opt_map<A, B>(o: Option<A>, g: spec_fn(A) -> B) -> Option<B> { match o { Some(a) => Some(g(a)), None => None } }
+pub proof fn lemma_somes_map<A, B>(ys: Seq<Option<A>>, g: spec_fn(A) -> B)
+    ensures somes(ys).map_values(g) == somes(ys.map_values(|o: Option<A>| opt_map(o, g))),
+    decreases ys.len(),
+{
+    let zs = ys.map_values(|o: Option<A>| opt_map(o, g));
+    if ys.len() > 0 {
+        lemma_somes_map(ys.drop_last(), g);
+        assert(zs.drop_last() =~= ys.drop_last().map_values(|o: Option<A>| opt_map(o, g)));
+        match ys.last() {
+            Some(y) => { assert(somes(ys).map_values(g) =~= somes(ys.drop_last()).map_values(g).push(g(y))); },
+            None => {},
+        }
+    } else {
+        assert(somes(ys).map_values(g) =~= somes(zs));
+    }
+}
+
 pub trait ShimFilterMap: Iterator + Sized {
     fn shim_filter_map<B, F: FnMut(Self::Item) -> Option<B>>(self, f: F) -> (r: std::vec::IntoIter<B>)
         requires
